@@ -63,6 +63,10 @@ class Resolver:
         _stack = _stack if _stack is not None else set()
         return self._res(expr, at, depth, _stack, {})
 
+    def resolve_with(self, expr: ast.AST, at: int, bound: Dict[str, ast.AST]) -> ast.AST:
+        """Resolve with some names pre-bound to given terms (used for case splits)."""
+        return self._res(expr, at, 0, set(), dict(bound))
+
     def resolve_name(self, name: str, at: int) -> ast.AST:
         return self._name(name, at, 0, set(), {})
 
